@@ -22,6 +22,9 @@ pub fn drain() -> Vec<(Locator, Vec<u8>)> {
 }
 /// true = datagram consumed (do not send).
 pub fn intercept(buffer: &[u8], locator: &Locator) -> bool {
+  if lossy(locator) {
+    return true;
+  }
   SINK.with(|s| match s.borrow_mut().as_mut() {
     Some(v) => {
       v.push((*locator, buffer.to_vec()));
@@ -29,4 +32,49 @@ pub fn intercept(buffer: &[u8], locator: &Locator) -> bool {
     }
     None => false,
   })
+}
+
+// ---- datagram loss policy (process-wide, keyed by RTPS domain id derived from the destination port)
+use std::sync::atomic::{AtomicU32, AtomicU64, Ordering};
+
+const ZERO32: AtomicU32 = AtomicU32::new(0);
+pub static LOSS_PERMILLE: [AtomicU32; 256] = [ZERO32; 256];
+static LOSS_CTR: AtomicU64 = AtomicU64::new(0x1234_5678);
+pub static DROPPED: AtomicU64 = AtomicU64::new(0);
+
+pub fn set_loss(domain: u16, permille: u32) {
+  LOSS_PERMILLE[(domain as usize) % 256].store(permille, Ordering::Relaxed);
+}
+
+fn domain_of(locator: &Locator) -> Option<usize> {
+  let port = match locator {
+    Locator::UdpV4(a) => a.port(),
+    Locator::UdpV6(a) => a.port(),
+    _ => return None,
+  };
+  if port < 7400 {
+    return None;
+  }
+  Some(((port - 7400) / 250) as usize % 256)
+}
+
+/// true = drop this datagram.
+pub fn lossy(locator: &Locator) -> bool {
+  let d = match domain_of(locator) {
+    Some(d) => d,
+    None => return false,
+  };
+  let rate = LOSS_PERMILLE[d].load(Ordering::Relaxed);
+  if rate == 0 {
+    return false;
+  }
+  let mut z = LOSS_CTR.fetch_add(0x9E3779B97F4A7C15, Ordering::Relaxed);
+  z = (z ^ (z >> 30)).wrapping_mul(0xBF58476D1CE4E5B9);
+  z = (z ^ (z >> 27)).wrapping_mul(0x94D049BB133111EB);
+  z ^= z >> 31;
+  let drop = (z % 1000) < rate as u64;
+  if drop {
+    DROPPED.fetch_add(1, Ordering::Relaxed);
+  }
+  drop
 }
